@@ -206,3 +206,17 @@
                               :pattern ((select hpn j))))
          (= (hpnames hp hpn k) (aliasnames a k)))
      :pattern ((hpnames hp hpn k) (aliasnames a k)))))
+
+; ---------------------------------------------------------------------------------------------
+; Program level (C11): one generator function per predicate key, named name_arity with parameters arg1..argN
+; ---------------------------------------------------------------------------------------------
+(declare-datatypes ((PK 0)) (((mkPK (pkname String) (pkarity Int)))))        ; dictionary key (name, arity) of visitProgram
+(declare-datatypes ((FN 0)) (((mkFN (fnname String) (fnargs SS)))))          ; YPCodeFunction(name, args, <lazy body>)
+(define-fun-rec argnames ((n Int)) SS
+  (ite (<= n 0) (as seq.empty SS) (seq.++ (argnames (- n 1)) (seq.unit (argname (- n 1))))))
+; L-ARGNAMES-LEN (by induction, vf/lemmas.py): the emitted `def name_<len(args)>` carries the key's arity
+(assert (forall ((n Int)) (! (= (seq.len (argnames n)) (ite (<= n 0) 0 n)) :pattern ((argnames n)))))
+(define-fun fnof ((k PK)) FN (mkFN (pkname k) (argnames (pkarity k))))
+; the functions of the first k dictionary entries, in dictionary order
+(define-fun-rec progfns ((p (Seq PK)) (k Int)) (Seq FN)
+  (ite (<= k 0) (as seq.empty (Seq FN)) (seq.++ (progfns p (- k 1)) (seq.unit (fnof (seq.nth p (- k 1)))))))
